@@ -16,6 +16,7 @@ func init() {
 		Packages: []string{dockIgnPkg, pmPkg, ignorePkg, corePkg, syncPkg},
 		Explanation: "(R1, sibling agreement) the vendored matcher's MatchesForMutagen loop has the same last-match-wins structure as the Mutagen-style ignorer (same skip justification, status updates, exclusion counter, early exit), decided on every path of one iteration; after the loop: an inverted directory never continues traversal, non-directories and matchers without exclusions never continue, otherwise traversal continues exactly when some exclusion pattern has the directory as a path prefix (with separator); " +
 			"(R2) the status mapping Nominal→Nominal, Matched→Ignored, Inverted→Unignored is total and injective and forwards the traversal flag; pattern normalisation trims whitespace before and after the '!' and cleans the path; " +
+			"(R2 addition) NewIgnorer builds the matcher from the caller's pattern list itself — nothing is dropped, merged or reordered beforehand (evaluation is last-match-wins, so a repeated pattern is significant); " +
 			"(R3) the scan's (status, mask, continue) decision table and phantom-directory marking (shared with C14.R5); non-UTF-8 names under a mask are Untracked; " +
 			"(R4) reifyPhantomDirectories: reifyToTracked = trackedBelow ∨ ancestorIsDirectory [truth table]; reifying to untracked applies only to phantom directories and clears their contents; it works on copies made by ReifyPhantomDirectories; " +
 			"(R5) the controller reifies exactly when the effective ignore syntax is Docker, before reconciliation, and reconciles the reified trees. " +
